@@ -160,38 +160,47 @@ FIX_W_THORO = "0,1,20,40,60,80,100,120,10000"
 LIST_INSTANCES = ["array", "args", "block", "paren", "dict"]
 
 
-def list_models(ctx, common, tabs):
-    """L2: exhaustive design check of the ListStylist model at one or more call sites (every grammatical child
-    sequence up to the bound x every width), and its behaviours as inputs for the real code (U-beh)."""
+def l2_models(ctx, common, tabs, which):
+    """L2: exhaustive design checks of the implementation-shaped layout models (every grammatical child sequence up
+    to the bound x every width, token-level invariants), their behaviours replayed into the real code (U-beh), and
+    the comparison of the model-predicted text with the real output (drift: reported, never a verdict)."""
     import beh
     q = ctx.quick
-    insts = LIST_INSTANCES if not q else [LIST_INSTANCES[(ctx.seed + k) % len(LIST_INSTANCES)] for k in (0, 1)]
-    maxlen = 5 if q else 6
     allb = []
-    total_drift = dict(comparisons=0, drift=0, env_gap=0, samples=[])
-    for inst in insts:
-        wd = os.path.join(ctx.work, "mc-list-" + inst)
+    total = dict(comparisons=0, drift=0, env_gap=0, samples=[])
+
+    def run(name, fn, maxw):
+        wd = os.path.join(ctx.work, "mc-" + name.replace("[", "-").replace("]", ""))
         t = time.time()
-        r, behs = beh.list_behaviours(wd, inst, maxlen, maxw=24, unit=2)
-        C.log("design check ListMC[%s] len<=%d: ok=%s states=%d behaviours=%d %.1fs" % (
-            inst, maxlen, r["ok"], r["states"], len(behs), time.time() - t))
-        ctx.design.append(dict(spec="ListMC[%s]" % inst, ok=r["ok"], states=r["states"], transitions=r["transitions"],
-                               behaviours=len(behs)))
+        r, behs = fn(wd)
+        C.log("design check %s: ok=%s states=%d behaviours=%d %.1fs" % (name, r["ok"], r["states"], len(behs), time.time() - t))
+        ctx.design.append(dict(spec=name, ok=r["ok"], states=r["states"], transitions=r["transitions"], behaviours=len(behs)))
         ctx.states += r["states"]
         ctx.transitions += r["transitions"]
         if not r["ok"]:
-            with open(os.path.join(ctx.work, "mc-list-%s.log" % inst), "w") as f:
+            with open(os.path.join(ctx.work, "mc-fail.log"), "w") as f:
                 f.write(r["out"])
-            raise C.ToolError("design check ListMC[%s] failed (model-level; not a property verdict)\n%s" % (inst, r["out"][-2500:]))
-        d, _ = beh.drift(wd, behs, 24, 2)
+            raise C.ToolError("design check %s failed (model-level; not a property verdict)\n%s" % (name, r["out"][-2500:]))
+        d, _ = beh.drift(wd, behs, maxw, 2)
         for k in ("comparisons", "drift", "env_gap"):
-            total_drift[k] += d[k]
-        total_drift["samples"] += d["samples"][:2]
-        allb += behs
-    ctx.extra["model_drift"] = total_drift
-    if total_drift["drift"]:
+            total[k] += d[k]
+        total["samples"] += d["samples"][:2]
+        allb.extend(behs)
+
+    if "list" in which:
+        insts = LIST_INSTANCES if not q else [LIST_INSTANCES[(ctx.seed + k) % len(LIST_INSTANCES)] for k in (0, 1)]
+        for inst in insts:
+            run("ListMC[%s]" % inst, lambda wd, inst=inst: beh.list_behaviours(wd, inst, 5 if q else 6, maxw=24), 24)
+    if "chain" in which:
+        run("ChainMC", lambda wd: beh.chain_behaviours(wd, 6 if q else 8, maxw=30), 30)
+    if "flow" in which:
+        run("FlowMC", lambda wd: beh.flow_behaviours(wd, 9 if q else 11, maxw=30), 30)
+    if "markup" in which:
+        run("MarkupMC", lambda wd: beh.markup_behaviours(wd, 4 if q else 5, maxw=20), 20)
+    ctx.extra["model_drift"] = total
+    if total["drift"]:
         C.log("MODEL DRIFT: %d of %d model-predicted texts differ from the real output (not a verdict)" % (
-            total_drift["drift"], total_drift["comparisons"]))
+            total["drift"], total["comparisons"]))
     inp = os.path.join(ctx.work, "beh-all.ndjson")
     with open(inp, "w") as f:
         for b in allb:
@@ -200,7 +209,7 @@ def list_models(ctx, common, tabs):
 
 
 def fmt_family(ctx, rels, parts, seed_tags="", trivia_tags="", passes=False, gap_quick="1/16",
-               pair_fixed="1/400", pair_quick="1/10", tabs="2", fix_max_quick=30000, models=True, nl_fixed="1/40",
+               pair_fixed="1/400", pair_quick="1/10", tabs="2", fix_max_quick=30000, models=("list",), nl_fixed="1/40",
                nl_quick="1/6"):
     """The universes of the relation family.  Everything `thorough` explores is a fixed finite universe (all single
     placements, a seed-independent slice of the pair placements, a seed-independent slice of U-nl); `quick` explores
@@ -208,7 +217,7 @@ def fmt_family(ctx, rels, parts, seed_tags="", trivia_tags="", passes=False, gap
     q = ctx.quick
     common = dict(parts=parts, passes="true" if passes else "false")
     if models:
-        list_models(ctx, common, tabs)
+        l2_models(ctx, common, tabs, models)
     ctx.record("fix", universe="fix+chunk", widths=FIX_W_QUICK if q else FIX_W_THORO, tabs=tabs,
                max_bytes=fix_max_quick if q else (1 << 30), chunk_frac="1/8" if q else "1/1", **common)
     gap = dict(universe="gap", widths="all", single=gap_quick if q else "1/1", pair_fixed=pair_fixed,
@@ -226,32 +235,34 @@ def fmt_family(ctx, rels, parts, seed_tags="", trivia_tags="", passes=False, gap
 
 
 def c01(ctx):
-    fmt_family(ctx, ["R01"], "tree", gap_quick="1/12", pair_fixed="1/600", tabs="2,4")
+    fmt_family(ctx, ["R01"], "tree", gap_quick="1/12", pair_fixed="1/600", tabs="2,4", models=("list", "flow"))
 
 
 def c03(ctx):
-    fmt_family(ctx, ["R03"], "none", passes=True, gap_quick="1/6", pair_fixed="1/200", tabs="2,4")
+    fmt_family(ctx, ["R03"], "none", passes=True, gap_quick="1/6", pair_fixed="1/200", tabs="2,4",
+               models=("list", "chain", "markup"))
 
 
 def c04(ctx):
-    fmt_family(ctx, ["R04"], "fmt", gap_quick="1/4", pair_fixed="1/100", tabs="2,4")
+    fmt_family(ctx, ["R04"], "fmt", gap_quick="1/4", pair_fixed="1/100", tabs="2,4", models=("list", "chain", "flow"))
 
 
 def c06(ctx):
-    fmt_family(ctx, ["R06"], "flat", trivia_tags="cmt,off", gap_quick="1/6", pair_fixed="1/200")
+    fmt_family(ctx, ["R06"], "flat", trivia_tags="cmt,off", gap_quick="1/6", pair_fixed="1/200",
+               models=("list", "chain", "markup"))
 
 
 def c08(ctx):
-    fmt_family(ctx, ["R08"], "flat", models=False, seed_tags="markup,prose,list-item,comment,degenerate", gap_quick="1/4",
+    fmt_family(ctx, ["R08"], "flat", models=("markup",), seed_tags="markup,prose,list-item,comment,degenerate", gap_quick="1/4",
                pair_fixed="1/200")
 
 
 def c09(ctx):
-    fmt_family(ctx, ["R09"], "flat", models=False, seed_tags="math", gap_quick="1/3", pair_fixed="1/50")
+    fmt_family(ctx, ["R09"], "flat", models=(), seed_tags="math", gap_quick="1/3", pair_fixed="1/50")
 
 
 def c10(ctx):
-    fmt_family(ctx, ["R10"], "flat", models=False, seed_tags="lit,markup,call,comment", gap_quick="1/6", pair_fixed="1/400")
+    fmt_family(ctx, ["R10"], "flat", models=(), seed_tags="lit,markup,call,comment", gap_quick="1/6", pair_fixed="1/400")
 
 
 def c11(ctx):
@@ -263,11 +274,11 @@ def c12(ctx):
 
 
 def c19(ctx):
-    fmt_family(ctx, ["R19"], "imp", models=False, seed_tags="import,markup", gap_quick="1/2", pair_fixed="1/20", pair_quick="1/10")
+    fmt_family(ctx, ["R19"], "imp", models=(), seed_tags="import,markup", gap_quick="1/2", pair_fixed="1/20", pair_quick="1/10")
 
 
 def c07(ctx):
-    fmt_family(ctx, ["R07"], "off", models=False, trivia_tags="off", gap_quick="1/1", pair_fixed="1/50", pair_quick="1/8",
+    fmt_family(ctx, ["R07"], "off", models=(), trivia_tags="off", gap_quick="1/1", pair_fixed="1/50", pair_quick="1/8",
                tabs="2,4")
 
 
@@ -415,9 +426,9 @@ def c13(ctx):
     q = ctx.quick
     d = os.path.join(ctx.work, "rec-ranges")
     t = time.time()
-    C.run([C.VT, "ranges", "--universe", "gap+chunk", "--single", "1/150" if q else "1/12", "--chunk-bytes", "80",
+    C.run([C.VT, "ranges", "--universe", "gap+chunk", "--single", "1/150" if q else "1/40", "--chunk-bytes", "80",
            "--chunk-frac", "1/6" if q else "1/1", "--seed", str(ctx.seed), "--max-doc", "70" if q else "80",
-           "--cfgs", "40:2:2:0" if q else "40:2:2:0,0:4:2:0,120:3:2:0", "--outdir", d, "--shards", "12",
+           "--cfgs", "40:2:2:0" if q else "40:2:2:0,0:4:2:0", "--outdir", d, "--shards", "12",
            "--verif", C.VERIF, "--fixtures", os.path.join(C.REPO, "tests", "fixtures")], timeout=3000)
     s = json.load(open(os.path.join(d, "summary.json")))
     C.log("recorded ranges: %d documents, %d calls, %d distinct results in %.1fs" % (
